@@ -8,35 +8,40 @@ set_option maxHeartbeats 4000000
 
 /-- program counters at which the actor holds `p_eventual->lock` -/
 def HoldsLock : Pc → Prop
-  | .setOkCS | .setErrCS | .waitCS | .waitEnq | .reW | .reR | .passCS | .testCS0 | .testCS1 | .resetCS => True
+  | .setOkCS | .setErrCS | .waitCS | .waitEnq | .reW | .reR | .passCS | .testCS0 | .testCS1 | .resetCS
+  | .freeCS | .freed => True
   | .idle | .rejected | .bigRej | .setCalled | .setOkDone | .setErrDone | .waitCalled | .waiting | .woken
-  | .waitDone | .testCalled | .testDone0 | .testDone1 | .resetCalled | .resetDone => False
+  | .waitDone | .testCalled | .testDone0 | .testDone1 | .resetCalled | .resetDone | .freeCalled => False
 
 /-- program counters of an actor that is in the wait-list -/
 def InQ : Pc → Prop
   | .waitEnq | .waiting | .reW => True
   | .idle | .rejected | .bigRej | .setCalled | .setOkCS | .setErrCS | .setOkDone | .setErrDone | .waitCalled
   | .waitCS | .woken | .reR | .passCS | .waitDone | .testCalled | .testCS0 | .testCS1 | .testDone0
-  | .testDone1 | .resetCalled | .resetCS | .resetDone => False
+  | .testDone1 | .resetCalled | .resetCS | .resetDone
+  | .freeCalled | .freeCS | .freed => False
 
 /-- a waiter that has been let through (found the eventual ready, or was woken) -/
 def Through : Pc → Prop
   | .woken | .reR | .passCS | .waitDone => True
   | .idle | .rejected | .bigRej | .setCalled | .setOkCS | .setErrCS | .setOkDone | .setErrDone | .waitCalled
   | .waitCS | .waitEnq | .waiting | .reW | .testCalled | .testCS0 | .testCS1 | .testDone0 | .testDone1
-  | .resetCalled | .resetCS | .resetDone => False
+  | .resetCalled | .resetCS | .resetDone
+  | .freeCalled | .freeCS | .freed => False
 
 /-- program counters inside ABT_eventual_wait past the tasklet check -/
 def InWait : Pc → Prop
   | .waitCalled | .waitCS | .waitEnq | .waiting | .reW | .woken | .reR | .passCS | .waitDone => True
   | .idle | .rejected | .bigRej | .setCalled | .setOkCS | .setErrCS | .setOkDone | .setErrDone | .testCalled
-  | .testCS0 | .testCS1 | .testDone0 | .testDone1 | .resetCalled | .resetCS | .resetDone => False
+  | .testCS0 | .testCS1 | .testDone0 | .testDone1 | .resetCalled | .resetCS | .resetDone
+  | .freeCalled | .freeCS | .freed => False
 
 /-- callers whose observation under the lock was "ready" -/
 def SawReady : Pc → Prop
   | .setErrCS | .setErrDone | .woken | .reR | .passCS | .waitDone | .testCS1 | .testDone1 => True
   | .idle | .rejected | .bigRej | .setCalled | .setOkCS | .setOkDone | .waitCalled | .waitCS | .waitEnq
-  | .waiting | .reW | .testCalled | .testCS0 | .testDone0 | .resetCalled | .resetCS | .resetDone => False
+  | .waiting | .reW | .testCalled | .testCS0 | .testDone0 | .resetCalled | .resetCS | .resetDone
+  | .freeCalled | .freeCS | .freed => False
 
 structure Inv (s : St) : Prop where
   lockIff : ∀ a, s.lock = some a ↔ HoldsLock (s.pc a)
